@@ -548,6 +548,16 @@ class Prov:
                 inv = self.closure_invocation(g)
                 if inv is not None and inv[0].key == fn.key and inv[1] == bid:
                     return self.ret(g)
+                if inv is None and len(args) == 2 and self._is_straight_closure(g):
+                    # a local constructor-like closure invoked at several places (`let make = |x| T { a, b, x }`): at each
+                    # call its body with the parameters replaced by this call's arguments
+                    tup = peel(args[1])
+                    if tup[0] == "agg" and tup[1] == "tuple":
+                        def subc(x):
+                            if x[0] == "cparam" and 0 <= x[1] - 2 < len(tup[2]):
+                                return tup[2][x[1] - 2][1]
+                            return None
+                        return map_origin(self.ret(g), subc)
         if c.get("local"):
             g = self.facts.fn(c.get("resolved") or c["key"])
             if g is not None and self._is_constructor_like(g) and len(args) == g.arg_count:
@@ -583,6 +593,19 @@ class Prov:
                     if t["k"] == "switch" or t["k"] == "tailcall":
                         r = False
                     elif t["k"] == "call" and not callee_is_vp(t["callee"]):
+                        r = False
+            self._ctor_like[g.key] = r
+        return r
+
+    def _is_straight_closure(self, g):
+        """a closure whose body is straight-line and makes no call other than value-preserving ones"""
+        r = self._ctor_like.get(g.key)
+        if r is None:
+            r = g.kind == "closure" and len(g.order) <= 6
+            if r:
+                for bid in g.order:
+                    t = g.blocks[bid]["term"]
+                    if t["k"] in ("switch", "tailcall") or (t["k"] == "call" and not callee_is_vp(t["callee"])):
                         r = False
             self._ctor_like[g.key] = r
         return r
